@@ -125,6 +125,9 @@ func fnPkgPath(fn *ssa.Function) string {
 
 func (e *Exec) callFn(s *State, c *ssa.Call, fn *ssa.Function, args []Val) []Out {
 	full := fn.String()
+	if fn.Name() == "init" && fn.Signature.Params().Len() == 0 && fn.Signature.Results().Len() == 0 && !strings.HasPrefix(fnPkgPath(fn), e.w.modPath) {
+		return []Out{{St: s}} // initialisers of imported packages: no effect on tracked state
+	}
 	if outs, ok := e.model(s, c, fn, full, args); ok {
 		e.stats.Modelled[full]++
 		return outs
@@ -303,6 +306,90 @@ func (e *Exec) model(s *State, c *ssa.Call, fn *ssa.Function, full string, args 
 			return ret(hp)
 		}
 		unsupported("strings.HasPrefix on non-concrete")
+	case "encoding/json.Unmarshal":
+		// Assumed contract of the decoder: it fails (nothing written) or succeeds
+		// and sets the target's fields. Only the fields named by the contract's
+		// `option json-havoc` are given unknown decoded values (maps: nil or some
+		// map; strings: unknown, possibly empty; bools: unknown); the others keep
+		// their zero value, which no post below reads. decoded(k, Field) names the
+		// value the k-th successful decode on the path produced.
+		tgt, ok := args[1].(Iface)
+		if !ok || tgt.Dyn == nil {
+			unsupported("json.Unmarshal into %T", args[1])
+		}
+		ref, ok := tgt.V.(Ref)
+		if !ok || ref.isNil() {
+			unsupported("json.Unmarshal into non-pointer")
+		}
+		k := 0
+		if kv, ok := s.Ghost["json:calls"].(*T); ok {
+			kk, _ := kv.intVal()
+			k = int(kk)
+		}
+		s.Ghost["json:calls"] = mkInt(int64(k + 1))
+		failSt := s.clone()
+		outs := []Out{{St: failSt, Rets: []Val{mkErr("json.Unmarshal")}}}
+		var want []string
+		if e.conUnder != nil {
+			if v, ok := e.conUnder.option("json-havoc"); ok {
+				want = strings.Fields(v)
+			}
+		}
+		okStates := []*State{s}
+		cur := s.load(ref)
+		if agg, isAgg := cur.(*Agg); isAgg && agg.Typ != nil {
+			if st, isSt := agg.Typ.Underlying().(*types.Struct); isSt {
+				for fi := 0; fi < st.NumFields(); fi++ {
+					fname := st.Field(fi).Name()
+					sel := false
+					for _, wn := range want {
+						if wn == fname {
+							sel = true
+						}
+					}
+					if !sel {
+						continue
+					}
+					var next []*State
+					for _, st0 := range okStates {
+						var alts []Val
+						switch u := st.Field(fi).Type().Underlying().(type) {
+						case *types.Map:
+							mr := st0.alloc(&MapAgg{Unknown: true, Tag: fmt.Sprintf("decoded%d.%s", k, fname)})
+							alts = []Val{MapV{}, MapV{Cell: mr.Cell}}
+						case *types.Basic:
+							switch {
+							case u.Info()&types.IsString != 0:
+								alts = []Val{atom(fmt.Sprintf("decoded%d.%s", k, fname))}
+							case u.Info()&types.IsBoolean != 0:
+								alts = []Val{mkVar(fmt.Sprintf("decoded%d.%s", k, fname), SBool)}
+							}
+						}
+						if alts == nil {
+							unsupported("json-havoc of field %s of type %s", fname, st.Field(fi).Type())
+						}
+						for ai, av := range alts {
+							st1 := st0
+							if ai < len(alts)-1 {
+								st1 = st0.clone()
+							}
+							st1.store(ref.sub(fi), av)
+							st1.Ghost[fmt.Sprintf("json:%d:%s", k, fname)] = av
+							next = append(next, st1)
+						}
+					}
+					okStates = next
+				}
+			}
+		} else if t, isT := cur.(*T); isT && t.Sort == SBool {
+			bv := mkVar(fmt.Sprintf("decoded%d.bool", k), SBool)
+			s.store(ref, bv)
+			s.Ghost[fmt.Sprintf("json:%d:bool", k)] = bv
+		}
+		for _, st1 := range okStates {
+			outs = append(outs, Out{St: st1, Rets: []Val{Iface{}}})
+		}
+		return outs, true
 	case "reflect.DeepEqual":
 		if t, ok := deepEqualVal(s, args[0], args[1], 0); ok {
 			return ret(t)
@@ -400,6 +487,9 @@ func (e *Exec) model(s *State, c *ssa.Call, fn *ssa.Function, full string, args 
 			if t, ok := a.(Text); ok {
 				parts = append(parts, t.String())
 			}
+		}
+		if fn.Signature.Results().Len() == 0 {
+			return ret()
 		}
 		rt := fn.Signature.Results().At(0).Type()
 		return ret(Iface{Dyn: errDynType, V: Opaque{Tag: "cmpopt:" + short + ":" + strings.Join(parts, ","), Typ: rt}})
